@@ -9,12 +9,19 @@
 (*   hand[p]  [name, hash, linked] : source name (0 = none), the core hash *)
 (*            last seen, whether the source object is attached             *)
 (*   oper[p]  [type, table, broken, outdated] for operation pictograms     *)
-(*   store[s] [n, u, e, txt, saved] : the source's schema, abstracted to   *)
-(*            n base sets, u inherited derived terms, e terms the user     *)
-(*            added to this result, a text revision; saved = no change is  *)
+(*   store[s] [b, u, e, txt, saved, ...] : the source's schema, abstracted *)
+(*            to the sequence b of its base sets (each an origin token     *)
+(*            <<source, k>>: the k-th base set ever created in that        *)
+(*            source), u inherited derived terms, e terms the user added   *)
+(*            to this result, a text revision; saved = no change is        *)
 (*            waiting to be announced; locked = the environment refuses    *)
 (*            to write new data into it                                    *)
-(* The formal content (what the core hash covers) is <<n, u, e>>.          *)
+(* The formal content (what the core hash covers: aliases + definitions)   *)
+(* is <<number of base sets, u, e>>; which base sets they are matters for  *)
+(* equation tables and translations, not for the hash.                     *)
+(* labelled = every base set carries a unique term text (its token): equal *)
+(* copies that reach an operation along two paths are then merged by       *)
+(* DeleteDuplicates; unlabelled (empty) base sets never are.               *)
 (*   cell[p]  <<row, column>> of the pictogram on the layout grid          *)
 (***************************************************************************)
 EXTENDS Integers, Sequences, FiniteSets, TLC
@@ -23,9 +30,12 @@ NoHash == <<>>
 EmptyHandle == [name |-> 0, hash |-> NoHash, linked |-> FALSE]
 \* table: -1 no options object, 0 an empty equation table, 1 the table { first base set of parent 1 = first base set of parent 2 }
 \* tkey: the sources whose first base sets the table names (identifiers of other sources' constituents mean nothing)
-NewOper == [type |-> "tba", table |-> -1, tkey |-> <<0, 0>>, broken |-> FALSE, outdated |-> FALSE]
-Pairs(t) == IF t = 1 THEN 1 ELSE 0
-EmptyOSS == [par |-> <<>>, hand |-> <<>>, oper |-> <<>>, store |-> <<>>, dnd |-> FALSE, cell |-> <<>>]
+\*        2 the table { last base set of parent 1 = first base set of parent 2 }
+NoTok == <<0, 0>>
+NewOper == [type |-> "tba", table |-> -1, tkey |-> <<NoTok, NoTok>>, broken |-> FALSE, outdated |-> FALSE]
+Pairs(t) == IF t >= 1 THEN 1 ELSE 0
+EmptyOSS == [par |-> <<>>, hand |-> <<>>, oper |-> <<>>, store |-> <<>>, dnd |-> FALSE, cell |-> <<>>, labelled |-> FALSE]
+EmptyLabelled == [EmptyOSS EXCEPT !.labelled = TRUE]
 
 \* ---- layout grid (ossGridFacet)
 Occupied(S, pos) == \E q \in DOMAIN S.cell : S.cell[q] = pos
@@ -42,7 +52,10 @@ ChildPos(S, a, b) ==
 Picts(S) == DOMAIN S.par
 IsOp(S, p) == p \in DOMAIN S.oper
 ChildrenOf(S, p) == {c \in Picts(S) : \E i \in DOMAIN S.par[c] : S.par[c][i] = p}
-Core(S, s) == <<S.store[s].n, S.store[s].u, S.store[s].e>>
+\* ax: the alias numbers of the base sets (X1, X2, ... in a result; in an edited source the numbers its base sets were given)
+Core(S, s) == <<{S.store[s].ax[i] : i \in DOMAIN S.store[s].ax}, S.store[s].u, S.store[s].e>>
+SmallestFree(q) == CHOOSE k \in 1..(Len(q) + 1) : ~(\E i \in DOMAIN q : q[i] = k) /\ \A j \in 1..(k - 1) : \E i \in DOMAIN q : q[i] = j
+InSeq(x, q) == \E i \in DOMAIN q : q[i] = x
 HasData(S, p) == S.hand[p].name # 0
 DataOf(S, p) == S.store[S.hand[p].name]
 \* ascending sequence of a finite set of integers
@@ -50,16 +63,19 @@ RECURSIVE SortedSeq(_)
 SortedSeq(X) == IF X = {} THEN <<>> ELSE LET m == CHOOSE x \in X : \A y \in X : x <= y IN <<m>> \o SortedSeq(X \ {m})
 
 \* the sources a table written now would name (a table written while a parent has no data names nothing that exists)
-TKey(S, p) == LET p1 == S.par[p][1]  p2 == S.par[p][2] IN
-              IF HasData(S, p1) /\ HasData(S, p2) THEN <<S.hand[p1].name, S.hand[p2].name>> ELSE <<0, 0>>
+TKey(S, p, table) ==
+  LET p1 == S.par[p][1]  p2 == S.par[p][2] IN
+  IF HasData(S, p1) /\ HasData(S, p2) /\ DataOf(S, p1).b # <<>> /\ DataOf(S, p2).b # <<>>
+  THEN <<IF table = 2 THEN DataOf(S, p1).b[Len(DataOf(S, p1).b)] ELSE DataOf(S, p1).b[1], DataOf(S, p2).b[1]>>
+  ELSE <<NoTok, NoTok>>
 \* ---- what the operation's check computes (RSSProcessor::CheckCall on the parents' current data)
 ComputeBroken(S, c) ==
   LET o == S.oper[c]  p1 == S.par[c][1]  p2 == S.par[c][2] IN
   ~ ( /\ o.type \in {"merge", "synt"}
       /\ HasData(S, p1) /\ HasData(S, p2)
       /\ (o.type = "merge" => o.table <= 0)
-      /\ (o.type = "synt" /\ o.table = 1) => (/\ DataOf(S, p1).n >= 1 /\ DataOf(S, p2).n >= 1
-                                               /\ o.tkey # <<0, 0>> /\ o.tkey = <<S.hand[p1].name, S.hand[p2].name>>) )
+      /\ (o.type = "synt" /\ o.table >= 1) => (/\ o.tkey # <<NoTok, NoTok>>        \* both named base sets still exist in the parents
+                                                /\ InSeq(o.tkey[1], DataOf(S, p1).b) /\ InSeq(o.tkey[2], DataOf(S, p2).b)) )
 
 \* ---- announcing pending changes of a source (SaveState -> OnSourceChange -> UpdateOnSrcChange -> UpdateHashes -> OnCoreChange)
 RECURSIVE Sync(_, _), OnCoreChange(_, _), CheckOp(_, _), MarkChildren(_, _, _)
@@ -115,7 +131,7 @@ LoadPosition(S, p, pos) == IF CanLoadPosition(S, p, pos) THEN [S EXCEPT !.cell[p
 ConnectNew(S, p, s, n0) ==
   IF p \notin Picts(S) THEN S
   ELSE LET S0 == Sync(S, p)          \* a previously attached source is saved and closed
-           S1 == [S0 EXCEPT !.store = (s :> [n |-> n0, u |-> 0, e |-> 0, txt |-> 0, saved |-> TRUE, locked |-> FALSE]) @@ S0.store,
+           S1 == [S0 EXCEPT !.store = (s :> [b |-> [k \in 1..n0 |-> <<s, k>>], ax |-> [k \in 1..n0 |-> k], nextk |-> n0 + 1, u |-> 0, e |-> 0, txt |-> 0, saved |-> TRUE, locked |-> FALSE]) @@ S0.store,
                             !.hand[p] = [name |-> s, hash |-> S0.hand[p].hash, linked |-> TRUE]]
            new == Core(S1, s)
            S2 == [S1 EXCEPT !.hand[p].hash = new]
@@ -123,14 +139,17 @@ ConnectNew(S, p, s, n0) ==
 \* the user edits the schema held by the source of p; nothing is announced yet
 CanEdit(S, p, kind) ==
   /\ p \in Picts(S) /\ S.hand[p].linked
-  /\ CASE kind = "addBase" -> ~IsOp(S, p) /\ DataOf(S, p).n < 3
-       [] kind = "removeBase" -> ~IsOp(S, p) /\ DataOf(S, p).n >= 2
-       [] kind = "text" -> DataOf(S, p).n >= 1
-       [] kind = "userTerm" -> IsOp(S, p) /\ DataOf(S, p).e = 0 /\ DataOf(S, p).n >= 1
+  /\ CASE kind = "addBase" -> ~IsOp(S, p) /\ Len(DataOf(S, p).b) < 3
+       [] kind = "removeBase" -> ~IsOp(S, p) /\ Len(DataOf(S, p).b) >= 2
+       [] kind = "removeFirst" -> ~IsOp(S, p) /\ Len(DataOf(S, p).b) >= 2
+       [] kind = "text" -> Len(DataOf(S, p).b) >= 1 /\ ~S.labelled
+       [] kind = "userTerm" -> IsOp(S, p) /\ DataOf(S, p).e = 0 /\ Len(DataOf(S, p).b) >= 1
 Edit(S, p, kind) ==
   LET s == S.hand[p].name IN
-  CASE kind = "addBase" -> [S EXCEPT !.store[s].n = @ + 1, !.store[s].saved = FALSE]
-    [] kind = "removeBase" -> [S EXCEPT !.store[s].n = @ - 1, !.store[s].saved = FALSE]
+  CASE kind = "addBase" -> [S EXCEPT !.store[s].b = Append(@, <<s, S.store[s].nextk>>), !.store[s].ax = Append(@, SmallestFree(@)),
+                                     !.store[s].nextk = @ + 1, !.store[s].saved = FALSE]
+    [] kind = "removeBase" -> [S EXCEPT !.store[s].b = SubSeq(@, 1, Len(@) - 1), !.store[s].ax = SubSeq(@, 1, Len(@) - 1), !.store[s].saved = FALSE]
+    [] kind = "removeFirst" -> [S EXCEPT !.store[s].b = Tail(@), !.store[s].ax = Tail(@), !.store[s].saved = FALSE]
     [] kind = "text" -> [S EXCEPT !.store[s].txt = @ + 1, !.store[s].saved = FALSE]
     [] kind = "userTerm" -> [S EXCEPT !.store[s].e = 1, !.store[s].saved = FALSE]
 \* the environment makes the source of p read-only
@@ -146,14 +165,26 @@ Reload(S) == S
 InitFor(S, p, type, table) ==
   IF ~IsOp(S, p) THEN S
   ELSE IF type = "synt" /\ table = -1 THEN S                         \* synthesis needs options
-  ELSE IF /\ S.oper[p].type = type /\ S.oper[p].table = table
-          /\ (table = 1 => S.oper[p].tkey = TKey(S, p)) THEN S    \* the same definition: nothing changes
+  ELSE IF /\ S.oper[p].type = type
+          /\ \/ (table <= 0 /\ S.oper[p].table = table)
+             \/ (table >= 1 /\ S.oper[p].table >= 1 /\ S.oper[p].tkey = TKey(S, p, table)) THEN S    \* the same definition: nothing changes
   ELSE \* the handle is re-initialised first, then the old result is saved, closed and forgotten (Discard), then the definition is checked
        LET R == [S EXCEPT !.oper[p] = [type |-> type, table |-> table, broken |-> FALSE, outdated |-> FALSE,
-                                        tkey |-> IF table = 1 THEN TKey(S, p) ELSE <<0, 0>>]]
+                                        tkey |-> IF table >= 1 THEN TKey(S, p, table) ELSE <<NoTok, NoTok>>]]
            S0 == Sync(R, p)
            S1 == [S0 EXCEPT !.hand[p] = EmptyHandle]
        IN CheckOp(S1, p)
+
+\* the base sets of the synthesis of p's parents: the first operand's (without the equated key), then the second operand's;
+\* labelled base sets that arrive twice are merged (the earlier one stays)
+RECURSIVE DropDups(_, _)
+DropDups(q, acc) == IF q = <<>> THEN acc ELSE DropDups(Tail(q), IF InSeq(Head(q), acc) THEN acc ELSE Append(acc, Head(q)))
+SynthBases(S, p) ==
+  LET b1 == DataOf(S, S.par[p][1]).b  b2 == DataOf(S, S.par[p][2]).b  o == S.oper[p]
+      kept1 == IF o.table >= 1 THEN SelectSeq(b1, LAMBDA t : t # o.tkey[1]) ELSE b1
+      all == kept1 \o b2
+  IN IF S.labelled THEN DropDups(all, <<>>) ELSE all
+Label(tok) == <<tok[1], tok[2]>>
 
 \* Execute returns [ok, S]; a failing Execute keeps the side effects it had up to the failure
 RECURSIVE Execute(_, _, _, _), Prepare(_, _, _, _)
@@ -175,12 +206,12 @@ Execute(S, p, newSrc, autoDiscard) ==
     LET d1 == DataOf(S1, S1.par[p][1])  d2 == DataOf(S1, S1.par[p][2])
         S2 == IF HasData(S1, p) THEN Sync(S1, p) ELSE S1                    \* AggregateVersions saves the old result first
         carried == IF HasData(S2, p) THEN DataOf(S2, p).e ELSE 0            \* the user's own additions are carried over
-        content == [n |-> d1.n + d2.n - Pairs(S2.oper[p].table), u |-> d1.u + d1.e + d2.u + d2.e, e |-> carried,
+        content == [b |-> SynthBases(S2, p), ax |-> [k \in 1..Len(SynthBases(S2, p)) |-> k], nextk |-> 1, u |-> d1.u + d1.e + d2.u + d2.e, e |-> carried,
                     txt |-> 0, saved |-> TRUE, locked |-> FALSE]
         s == IF HasData(S2, p) THEN S2.hand[p].name ELSE newSrc[p]
         oldHash == S2.hand[p].hash
         S3 == [S2 EXCEPT !.store = (s :> content) @@ [x \in DOMAIN S2.store \ {s} |-> S2.store[x]],
-                         !.hand[p] = [name |-> s, hash |-> <<content.n, content.u, content.e>>, linked |-> TRUE],
+                         !.hand[p] = [name |-> s, hash |-> <<{content.ax[i] : i \in DOMAIN content.ax}, content.u, content.e>>, linked |-> TRUE],
                          !.oper[p].broken = FALSE, !.oper[p].outdated = FALSE]
         \* the children are re-checked; those computed from another content of p are outdated now
         changed == oldHash # S3.hand[p].hash
@@ -210,12 +241,17 @@ Structure(S) ==
 AllSaved(S) == \A p \in Picts(S) : S.hand[p].linked => S.store[S.hand[p].name].saved
 Expected(S, p) ==
   LET d1 == DataOf(S, S.par[p][1])  d2 == DataOf(S, S.par[p][2]) IN
-  <<d1.n + d2.n - Pairs(S.oper[p].table), d1.u + d1.e + d2.u + d2.e>>
+  <<Len(SynthBases(S, p)), d1.u + d1.e + d2.u + d2.e>>
+\* a parent re-connected to another source with the same formal content leaves the operation done although its table names base
+\* sets of the old source (the statement speaks of changes that alter the formal content): such operations are not judged
+TableLive(S, p) == S.oper[p].table >= 1 => (InSeq(S.oper[p].tkey[1], DataOf(S, S.par[p][1]).b) /\ InSeq(S.oper[p].tkey[2], DataOf(S, S.par[p][2]).b))
+\* (with labelled base sets the texts decide which copies DeleteDuplicates merges: the synthesis can change although no parent's
+\* formal content did, which is outside the statement's freshness clause - Fresh is stated for unlabelled schemas)
 Fresh(S) ==
-  AllSaved(S) =>
+  (AllSaved(S) /\ ~S.labelled) =>
     \A p \in DOMAIN S.oper :
-       (StatusOf(S, p) = "done" /\ HasData(S, S.par[p][1]) /\ HasData(S, S.par[p][2])) =>
-          <<DataOf(S, p).n, DataOf(S, p).u>> = Expected(S, p)
+       (StatusOf(S, p) = "done" /\ HasData(S, S.par[p][1]) /\ HasData(S, S.par[p][2]) /\ TableLive(S, p)) =>
+          <<Len(DataOf(S, p).b), DataOf(S, p).u>> = Expected(S, p)
 
 -----------------------------------------------------------------------------
 (* Recorded calls: one record per public call (of the schema or of its environment); shared by the generator and the trace spec *)
@@ -250,5 +286,11 @@ View(S) ==
       status |-> StatusOf(S, p),
       broken |-> IF IsOp(S, p) THEN S.oper[p].broken ELSE FALSE, outdated |-> IF IsOp(S, p) THEN S.oper[p].outdated ELSE FALSE,
       type |-> IF IsOp(S, p) THEN S.oper[p].type ELSE "",
-      n |-> IF HasData(S, p) THEN DataOf(S, p).n ELSE 0, terms |-> IF HasData(S, p) THEN DataOf(S, p).u + DataOf(S, p).e ELSE 0]]
+      n |-> IF HasData(S, p) THEN Len(DataOf(S, p).b) ELSE 0,
+      labels |-> IF HasData(S, p) /\ S.labelled THEN [j \in DOMAIN DataOf(S, p).b |-> Label(DataOf(S, p).b[j])] ELSE <<>>,
+      key |-> IF IsOp(S, p) /\ S.labelled /\ S.oper[p].table >= 1
+              THEN (IF /\ S.oper[p].tkey # <<NoTok, NoTok>> /\ HasData(S, S.par[p][1]) /\ HasData(S, S.par[p][2])
+                       /\ InSeq(S.oper[p].tkey[1], DataOf(S, S.par[p][1]).b) /\ InSeq(S.oper[p].tkey[2], DataOf(S, S.par[p][2]).b)
+                    THEN <<Label(S.oper[p].tkey[1]), Label(S.oper[p].tkey[2])>> ELSE <<"dangling">>)
+              ELSE <<>>, terms |-> IF HasData(S, p) THEN DataOf(S, p).u + DataOf(S, p).e ELSE 0]]
 =============================================================================
